@@ -183,6 +183,26 @@ def st_spec(draw, algo=None, known_exclusions=True):
 
 
 @st.composite
+def st_spec_trained(draw):
+    """GP algorithms through their REAL constructors (marginal-likelihood training of the GP on the dataset):
+    no factory substitution at all."""
+    algo = draw(st.sampled_from(["PaVeBaGP", "PaVeBaPartialGP", "VOGP", "EpsilonPAL", "DecoupledGP"]))
+    K = draw(st.integers(3, 6))
+    spec = draw(gen_runs.st_run_spec(algo, K=K, batch_max=K + 2, allow_Kgtm=True, source="fast"))
+    spec["source"] = "trained"
+    spec.pop("hyp", None)
+    m = len(spec["Y"][0])
+    if algo in ("PaVeBaPartialGP", "DecoupledGP"):
+        spec["costs"] = [draw(st.sampled_from([1.0, 0.5, 2.0])) for _ in range(m)]
+        spec["budget"] = draw(st.sampled_from([3.0, 6.0])) if algo == "DecoupledGP" else draw(st.sampled_from([None, 5.0]))
+    if algo in ("PaVeBaGP", "PaVeBaPartialGP") and ha.conf_type(spec) == "rect":
+        W = gen_runs.cone_matrix(spec["cone"])
+        if W.shape[0] != W.shape[1]:
+            spec["cone"] = {"kind": "comp", "m": m}
+    return spec
+
+
+@st.composite
 def st_spec_ad(draw):
     d = draw(st.sampled_from([1, 2, 2, 3]))
     m = 2 if d < 3 else draw(st.sampled_from([2, 3]))
@@ -200,6 +220,8 @@ def st_spec_ad(draw):
 COMPONENTS = [
     Component("run_invariants", check_run, strategy=st_spec, quick=240, thorough=12000,
               rule="8 dataset algorithms x sources x orders x confidence types x batch 1..K+3 x costs/budgets, K=1..10 designs"),
+    Component("run_invariants_trained_gp", check_run, strategy=st_spec_trained, quick=16, thorough=300,
+              rule="GP algorithms built by their real constructors (GP trained on the 3..6-design dataset), no substitution"),
     Component("run_invariants_vogp_ad", check_run, strategy=st_spec_ad, quick=32, thorough=1200,
               rule="VOGP_AD on user-defined continuous problems d=1..3, depth 1..3; S/P monotone modulo parent->children"),
 ]
